@@ -296,7 +296,9 @@ func downloadEvents(rng *rand.Rand, work string) ([]M, error) {
 	tmpl := map[string]string{}
 	controlled := map[string]string{"gatewayhostname": "s:evil.example", "full address": "s:evil:3389", "gatewaycredentialssource": "i:0", "gatewayaccesstoken": "s:EVILTOKEN",
 		"gatewayprofileusagemethod": "i:0", "gatewayusagemethod": "i:2", "username": "s:mallory", "domain": "s:evildomain"}
-	kept := map[string]string{"audiomode": "i:2", "keyboardhook": "i:1", "use multimon": "i:1", "alternate shell": "s:c:\\x.exe:arg", "desktopwidth": "i:1920", "redirectclipboard": "i:0", "selectedmonitors": "s:0,1"}
+	kept := map[string]string{"audiomode": "i:2", "keyboardhook": "i:1", "use multimon": "i:1", "alternate shell": "s:c:\\x.exe:arg", "desktopwidth": "i:1920", "redirectclipboard": "i:0", "selectedmonitors": "s:0,1",
+		// characters that mean something to whoever mistakes the text for a pattern (format verbs, escapes, placeholders)
+		"remoteapplicationcmdline": "s:%TEMP%\\a b%20c 100% %d %s", "remoteapplicationprogram": "s:||app {{ username }} $HOME \\n"}
 	for k, v := range controlled {
 		if rng.Intn(2) == 0 {
 			tmpl[k] = v
@@ -344,7 +346,7 @@ func downloadEvents(rng *rand.Rand, work string) ([]M, error) {
 		return rr.Code, rr.Body.String()
 	}
 	shared := mk()
-	users := []string{"alice", "bob@corp.example", "Ünï", "carol@lab.example"}
+	users := []string{"alice", "bob@corp.example", "Ünï", "carol@lab.example", "per%cent@ha%lf.example", "do$lar{{x}}"}
 	rng.Shuffle(len(users), func(a, b int) { users[a], users[b] = users[b], users[a] })
 	var evs []M
 	for pos, user := range users[:3] {
